@@ -94,6 +94,15 @@ func concCases(prop, tier string, seed uint64) []Case {
 		pb, _ := json.Marshal(p)
 		cases = append(cases, Case{ID: fmt.Sprintf("c11-h%05d", i), Seed: subSeed(seed, prop, tier, fmt.Sprint(i)), Kind: "random", P: pb})
 	}
+	// one read-only handle shared by all clients (no writer in these histories: a partly read handle keeps the drive, open finding)
+	nrd := 16
+	if tier == "thorough" {
+		nrd = 300
+	}
+	for i := 0; i < nrd; i++ {
+		pb, _ := json.Marshal(concP{Cfg: cfgs[i%len(cfgs)], Clients: 3 + r.Intn(6), PerCl: 6 + r.Intn(10), Witness: "", Log: false, Reopened: false, Procs: 0})
+		cases = append(cases, Case{ID: fmt.Sprintf("c11-rd%04d", i), Seed: subSeed(seed, prop, tier, "rd", fmt.Sprint(i)), Kind: "shared-read-handle", P: pb})
+	}
 	return cases
 }
 
@@ -366,7 +375,7 @@ func genPrograms(r interface{ Intn(int) int }, p concP) [][]COp {
 			}
 			if p.Log && r.Intn(8) == 0 {
 				// other calls on the shared handle: they may move its cursor, never where an O_APPEND write lands
-				ops = append(ops, COp{K: "logseek", Uid: r.Intn(40), Gid: r.Intn(3), Cl: c})
+				ops = append(ops, COp{K: "logseek", Uid: r.Intn(40), Gid: r.Intn(4), Cl: c})
 				continue
 			}
 			switch v := r.Intn(20); {
@@ -548,8 +557,13 @@ func execCOp(rig *Rig, cs *clientState, o COp) COut {
 			if _, err := cs.log.Seek(0, io.SeekCurrent); err != nil {
 				return fail2(err)
 			}
-		default:
+		case 2:
 			if _, err := cs.log.Stat(); err != nil {
+				return fail2(err)
+			}
+		default:
+			// flushes what has been appended so far; the appends of other clients go on meanwhile
+			if err := cs.log.Sync(); err != nil {
 				return fail2(err)
 			}
 		}
@@ -575,6 +589,9 @@ func concRun(prop, tier string, c Case, w *Worker) (res Result) {
 	_ = json.Unmarshal(c.P, &p)
 	if p.Witness != "" {
 		return concWitness(p, c, w)
+	}
+	if c.Kind == "shared-read-handle" {
+		return rdShareRun(p, c, w)
 	}
 	// GOMAXPROCS is fixed per worker process by the orchestrator (2, 4 or 16 by shard): switching it in-process crashed the
 	// race-detector runtime (SIGSEGV in runtime.startTheWorld) about once in a thousand histories - a harness artefact
@@ -1006,6 +1023,6 @@ func clip(s string, n int) string {
 func init() {
 	register(&Engine{Name: "conc", Props: []string{"C11"}, Cases: concCases, Run: concRun})
 	propMeta["C11"] = PropMeta{Level: "exploration",
-		Rule:        "per case 2..8 client goroutines run generated programs (3..6 API calls each: create/write/close of private files in shared directories, whole-file reads of shared files, mkdir, mkdirall, rename, remove, removeall on a small set of shared names with SQL wildcard characters, chmod/chown/chtimes, stat, list) against one instance (fresh, or reopened with an index rebuilt from the tape), GOMAXPROCS in {2,4,16}, with PRNG-driven yields/sleeps before every client call and at the drive open/close and drive-read seams; the binary is built with -race (a report kills the worker and is charged to the case); every call is recorded with call/return stamps from one atomic counter at the client boundary, and the history plus the final tree is checked for linearizability with porcupine against the reference model (write-back at close); in half of the histories all clients also append unique records through ONE shared O_APPEND handle - those appends are decided from the file content they leave (every acknowledged record exactly once, never torn or interleaved, nothing foreign, order consistent with real time: a record whose append returned before another was called precedes it) and the content is handed to the model at the close of the handle; then all locks must be free and the final tree must equal a rebuild from the tape; non-trivial = at least 3 overlapping call pairs of different clients and at least as many client switches at the index store as clients; distinct = distinct (interleaving signature, history); clients also call Seek / Stat on the shared handle, and create lock files (OpenFile O_CREATE|O_EXCL + Close on three shared names) and remove them",
+		Rule:        "per case 2..8 client goroutines run generated programs (3..6 API calls each: create/write/close of private files in shared directories, whole-file reads of shared files, mkdir, mkdirall, rename, remove, removeall on a small set of shared names with SQL wildcard characters, chmod/chown/chtimes, stat, list) against one instance (fresh, or reopened with an index rebuilt from the tape), GOMAXPROCS in {2,4,16}, with PRNG-driven yields/sleeps before every client call and at the drive open/close and drive-read seams; the binary is built with -race (a report kills the worker and is charged to the case); every call is recorded with call/return stamps from one atomic counter at the client boundary, and the history plus the final tree is checked for linearizability with porcupine against the reference model (write-back at close); in half of the histories all clients also append unique records through ONE shared O_APPEND handle - those appends are decided from the file content they leave (every acknowledged record exactly once, never torn or interleaved, nothing foreign, order consistent with real time: a record whose append returned before another was called precedes it) and the content is handed to the model at the close of the handle; then all locks must be free and the final tree must equal a rebuild from the tape; non-trivial = at least 3 overlapping call pairs of different clients and at least as many client switches at the index store as clients; distinct = distinct (interleaving signature, history); clients also call Seek / Stat / Sync on the shared handle, (separate histories: one READ-ONLY handle shared by 3-8 clients - parallel ReadAt must return exactly the bytes at its offset, Stat the size, and the one client that reads sequentially must see the file in order with a cursor equal to what it has read) and create lock files (OpenFile O_CREATE|O_EXCL + Close on three shared names) and remove them",
 		Assumptions: []string{"files are only read or rewritten through handles by clients for which the sequential model is unambiguous (shared files are never removed or renamed; private files are touched by their owner only): handle-versus-rename/remove shapes are sequential questions", "schedules the perturbed Go scheduler never produces are not explored", "a linearizability check that times out (60 s) is inconclusive"}}
 }
